@@ -1450,7 +1450,7 @@ func main() {
 		b.WriteString(try("g_"+coqName(f), func() string { return p.translateCursorLoop(f) }) + "\n")
 	}
 	b.WriteString("(* ---- 2c. loaders of the index structures ---- *)\n")
-	for _, f := range []string{"parseFooter", "Segment.getDocStoredOffsetsOnly", "Segment.loadStoredFieldChunk", "Segment.loadFields", "Segment.loadFieldDocValueReader"} {
+	for _, f := range []string{"parseFooter", "Segment.getDocStoredOffsetsOnly", "Segment.loadStoredFieldChunk", "Segment.loadFields", "Segment.loadFieldDocValueReader", "Segment.loadDvReaders", "Segment.getDocStoredOffsets"} {
 		f := f
 		b.WriteString(try("g_"+coqName(f), func() string { return p.translateReader(f) }) + "\n")
 	}
@@ -1469,6 +1469,18 @@ func main() {
 		}
 	}
 	b.WriteString("Definition all_skels : list skel := [" + strings.Join(skels, "; ") + "].\n")
+	// every x.Lock() / x.RLock() call expression of the package, counted over the syntax tree
+	// (independently of the skeleton extraction): all of them must show up in the skeletons
+	lockSites := 0
+	for _, k := range keys {
+		ast.Inspect(p.funcs[k], func(n ast.Node) bool {
+			if e, ok := n.(ast.Expr); ok && lockCall(e) == "KLock" {
+				lockSites++
+			}
+			return true
+		})
+	}
+	b.WriteString(fmt.Sprintf("Definition lock_call_sites : N := %d.\n", lockSites))
 	b.WriteString("\n(* ---- 4. writes to shared Segment state ---- *)\n")
 	fps := p.footprints()
 	fnIdx, fieldIdx := map[string]int{}, map[string]int{}
